@@ -44,6 +44,7 @@ type Program struct {
 	noret    map[*ssa.Function]bool
 	nonnil   map[*ssa.Function]bool
 	nnMu     sync.Mutex
+	lineMaps []map[string][]int // per earlier normalisation round: file -> text line -> line of that round's input
 	usedEdge map[*ssa.Phi][]bool
 	ueMu     sync.Mutex
 	eff      map[*ssa.Function]*Effects
@@ -84,10 +85,10 @@ func Load(repo string, cfg BuildConfig, overlay map[string][]byte) (*Program, er
 	if os.Getenv("AGECHECK_NO_INLINE") != "" {
 		rounds = 0
 	}
-	return load(repo, cfg, overlay, rounds)
+	return load(repo, cfg, overlay, rounds, nil)
 }
 
-func load(repo string, cfg BuildConfig, overlay map[string][]byte, rounds int) (*Program, error) {
+func load(repo string, cfg BuildConfig, overlay map[string][]byte, rounds int, lineMaps []map[string][]int) (*Program, error) {
 	fset := token.NewFileSet()
 	pc := &packages.Config{
 		Mode:    loadMode,
@@ -117,7 +118,7 @@ func load(repo string, cfg BuildConfig, overlay map[string][]byte, rounds int) (
 		}
 		return nil, fmt.Errorf("type-check/load errors: %s", strings.Join(errs, "; "))
 	}
-	p := &Program{Repo: repo, Config: cfg, Fset: fset, ByPath: map[string]*packages.Package{}, SSAPkg: map[string]*ssa.Package{}}
+	p := &Program{Repo: repo, Config: cfg, Fset: fset, lineMaps: lineMaps, ByPath: map[string]*packages.Package{}, SSAPkg: map[string]*ssa.Package{}}
 	for _, pk := range pkgs {
 		if pk.PkgPath == modPath || strings.HasPrefix(pk.PkgPath, modPath+"/") {
 			p.Pkgs = append(p.Pkgs, pk)
@@ -131,7 +132,12 @@ func load(repo string, cfg BuildConfig, overlay map[string][]byte, rounds int) (
 	if rounds > 0 {
 		// helpers the rules do not know are spliced into their callers (astinline.go);
 		// the normalised program must type-check, otherwise the original is analysed.
-		if ov, names := inlineUnknownHelpers(p.Pkgs, fset); ov != nil {
+		if ov, names := inlineUnknownHelpers(p.Pkgs, fset, rounds); ov != nil {
+			// positions of the next program refer to the lines of this round's input text
+			nextMaps := lineMaps
+			if len(overlay) > 0 {
+				nextMaps = append(append([]map[string][]int{}, lineMaps...), buildLineMaps(overlay))
+			}
 			merged := map[string][]byte{}
 			for k, v := range overlay {
 				merged[k] = v
@@ -144,13 +150,13 @@ func load(repo string, cfg BuildConfig, overlay map[string][]byte, rounds int) (
 					fmt.Fprintf(os.Stderr, "=== inlined %s\n%s\n", k, v)
 				}
 			}
-			np, err := load(repo, cfg, merged, rounds-1)
+			np, err := load(repo, cfg, merged, rounds-1, nextMaps)
 			if err == nil {
 				np.Inlined = append(np.Inlined, names...)
 				return np, nil
 			}
-			fmt.Fprintf(os.Stderr, "agecheck: helper normalisation rejected (%v); analysing the program as written\n", err)
-			return load(repo, cfg, overlay, 0)
+			fmt.Fprintf(os.Stderr, "agecheck: helper normalisation rejected (%v); keeping the previous round\n", err)
+			return load(repo, cfg, overlay, 0, lineMaps)
 		}
 	}
 	prog, spkgs := ssautil.Packages(p.Pkgs, ssa.InstantiateGenerics)
@@ -258,6 +264,11 @@ func (p *Program) pos(pos token.Pos) string {
 		return "-"
 	}
 	ps := p.Fset.Position(pos)
+	for i := len(p.lineMaps) - 1; i >= 0; i-- {
+		if m := p.lineMaps[i][ps.Filename]; m != nil && ps.Line < len(m) && m[ps.Line] > 0 {
+			ps.Line = m[ps.Line]
+		}
+	}
 	rel, err := filepath.Rel(p.Repo, ps.Filename)
 	if err != nil {
 		rel = ps.Filename
@@ -352,4 +363,36 @@ func (p *Program) LocalConst(pkg string, fn *ssa.Function, name string) (string,
 		return true
 	})
 	return val, found
+}
+
+// buildLineMaps reads the //line directives of generated files: for every
+// text line, the line of the input it was generated from.
+func buildLineMaps(overlay map[string][]byte) map[string][]int {
+	out := map[string][]int{}
+	for file, src := range overlay {
+		lines := strings.Split(string(src), "\n")
+		m := make([]int, len(lines)+2)
+		cur, have := 0, false
+		for i, l := range lines {
+			t := strings.TrimSpace(l)
+			if strings.HasPrefix(t, "//line ") {
+				if k := strings.LastIndexByte(t, ':'); k > 0 {
+					n := 0
+					fmt.Sscanf(t[k+1:], "%d", &n)
+					if n > 0 {
+						cur, have = n, true
+						continue
+					}
+				}
+			}
+			if have {
+				m[i+1] = cur
+				cur++
+			} else {
+				m[i+1] = i + 1
+			}
+		}
+		out[file] = m
+	}
+	return out
 }
